@@ -1,20 +1,20 @@
 import FsutilModel.Diff
 namespace Fsm.D
 
-variable {P : Type} [DecidableEq P]
+variable {P : Type} [DecidableEq P] {I : Type} [DecidableEq I]
 
-def Before (O : PathOrd P) (q : P) (ls us : List (Ent P)) : Prop :=
+def Before (O : PathOrd P) (q : P) (ls us : List (Ent P I)) : Prop :=
   (∀ l ∈ ls, O.lt q l.path = true) ∧ (∀ u ∈ us, O.lt q u.path = true)
 
-def Sorted (O : PathOrd P) (xs : List (Ent P)) : Prop :=
+def Sorted (O : PathOrd P) (xs : List (Ent P I)) : Prop :=
   xs.Pairwise (fun a b => O.lt a.path b.path = true)
 
 /-- ancestors of remaining entries are remaining directories, or already passed -/
-def Closed (O : PathOrd P) (xs ls us : List (Ent P)) : Prop :=
+def Closed (O : PathOrd P) (xs ls us : List (Ent P I)) : Prop :=
   ∀ x ∈ xs, ∀ p, O.under p x.path = true →
     (∃ d ∈ xs, d.path = p ∧ d.isDir = true) ∨ Before O p ls us
 
-structure Inv (O : PathOrd P) (tU : TMap P) (ls us : List (Ent P)) (rm : Option P) (t : TMap P) : Prop where
+structure Inv (O : PathOrd P) (tU : TMap P I) (ls us : List (Ent P I)) (rm : Option P) (t : TMap P I) : Prop where
   done_ : ∀ q, Before O q ls us → t q = tU q
   pnone : ∀ q, ¬ Before O q ls us → (∀ l ∈ ls, l.path ≠ q) → t q = none
   pl : ∀ l ∈ ls, t l.path = some l ∨ (t l.path = none ∧ ∀ u ∈ us, u.path ≠ l.path)
@@ -34,19 +34,19 @@ theorem lt_asymm (O : PathOrd P) {a b : P} (h : O.lt a b = true) : O.lt b a = fa
 theorem lt_ne (O : PathOrd P) {a b : P} (h : O.lt a b = true) : a ≠ b := by
   intro e; subst e; rw [O.lt_irrefl] at h; cases h
 
-theorem Before.mono {O : PathOrd P} {q : P} {ls us ls' us' : List (Ent P)}
+theorem Before.mono {O : PathOrd P} {q : P} {ls us ls' us' : List (Ent P I)}
     (h : Before O q ls us) (hl : ∀ x ∈ ls', x ∈ ls) (hu : ∀ x ∈ us', x ∈ us) : Before O q ls' us' :=
   ⟨fun l hl' => h.1 l (hl l hl'), fun u hu' => h.2 u (hu u hu')⟩
 
-theorem sorted_head {O : PathOrd P} {x : Ent P} {xs : List (Ent P)} (h : Sorted O (x :: xs)) :
+theorem sorted_head {O : PathOrd P} {x : Ent P I} {xs : List (Ent P I)} (h : Sorted O (x :: xs)) :
     ∀ y ∈ xs, O.lt x.path y.path = true := by
   intro y hy; exact (List.pairwise_cons.mp h).1 y hy
 
-theorem sorted_tail {O : PathOrd P} {x : Ent P} {xs : List (Ent P)} (h : Sorted O (x :: xs)) : Sorted O xs :=
+theorem sorted_tail {O : PathOrd P} {x : Ent P I} {xs : List (Ent P I)} (h : Sorted O (x :: xs)) : Sorted O xs :=
   (List.pairwise_cons.mp h).2
 
 /-- nothing in tU at q if q is neither remaining nor passed -/
-theorem tU_none {O : PathOrd P} {tU : TMap P} {ls us rm t} (hi : Inv O tU ls us rm t) (q : P)
+theorem tU_none {O : PathOrd P} {tU : TMap P I} {ls us rm t} (hi : Inv O tU ls us rm t) (q : P)
     (h1 : ∀ u ∈ us, u.path ≠ q) (h2 : ¬ Before O q ls us) : tU q = none := by
   cases h : tU q with
   | none => rfl
